@@ -1002,7 +1002,7 @@ func c12SessHistory(t *testing.T, out *vfOut, rnd *vfRand, users []webUser, name
 	for i := 0; i < n; i++ {
 		var op string
 		forced, forcedSpell = -1, -1
-		past := false
+		past, hasDelta, delta := false, false, int64(0)
 		if script != nil {
 			parts := strings.Split(script[i], ":")
 			op = parts[0]
@@ -1014,6 +1014,11 @@ func c12SessHistory(t *testing.T, out *vfOut, rnd *vfRand, users []webUser, name
 			}
 			if op == "setexp-past" {
 				op, past = "setexp", true
+			}
+			if strings.HasPrefix(op, "setexp@") {
+				// setexp@<seconds>: the expiry becomes now + seconds
+				delta, _ = strconv.ParseInt(op[len("setexp@"):], 10, 64)
+				op, hasDelta = "setexp", true
 			}
 		} else {
 			op = vfPick(rnd, []string{"new", "check", "check", "check", "http", "http", "logout", "logout", "remove", "restart", "setexp", "setexp", "setexp"})
@@ -1175,8 +1180,10 @@ func c12SessHistory(t *testing.T, out *vfOut, rnd *vfRand, users []webUser, name
 			t0 := time.Now().Unix()
 			nb := len(auth.sessions)
 			before := map[string]bool{}
-			for k := range auth.sessions {
+			beforeSess := map[string]session{}
+			for k, v := range auth.sessions {
 				before[k] = true
+				beforeSess[k] = *v
 			}
 			auth.Close()
 			auth = InitAuth(fn, users, ttl, nil, netutil.SliceSubnetSet(nil))
@@ -1193,9 +1200,23 @@ func c12SessHistory(t *testing.T, out *vfOut, rnd *vfRand, users []webUser, name
 			} else if nb > 0 {
 				classes["sess-restart-keep"] = true
 			}
-			for k := range auth.sessions {
+			for k, v := range auth.sessions {
 				if !before[k] {
 					fail("sess-resurrected", fmt.Sprintf("the restart brought back a session (%q) that was not in memory before it", k))
+				} else if b := beforeSess[k]; v.expire != b.expire || v.userName != b.userName {
+					// "valid only until expiry ... remains true after a restart":
+					// every session keeps its OWN expiry and user
+					fail("sess-changed-by-restart", fmt.Sprintf("session %q had user %q, expiry %d before the restart (at %d) and has user %q, expiry %d after it (%d sessions stored)",
+						k, b.userName, b.expire, t0, v.userName, v.expire, nb))
+				}
+			}
+			if len(auth.sessions) >= 2 {
+				exps := map[uint32]bool{}
+				for _, v := range auth.sessions {
+					exps[v.expire] = true
+				}
+				if len(exps) >= 2 {
+					classes["sess-restart-multi-expiry"] = true
 				}
 			}
 			for _, tk := range toks {
@@ -1230,6 +1251,9 @@ func c12SessHistory(t *testing.T, out *vfOut, rnd *vfRand, users []webUser, name
 				uint32(rnd.U64()), 0, 4294967295, now - 86400, now + uint32(rnd.Intn(100000))})
 			if past {
 				e = now - 10
+			}
+			if hasDelta {
+				e = uint32(int64(now) + delta)
 			}
 			a := auth
 			a.lock.Lock()
@@ -1435,6 +1459,13 @@ func TestVerifC12(t *testing.T) {
 	c12SessHistory(t, out, vfNewRand(9), users, "prelude/remove-other-spelling", 8, []string{
 		"new", "remove:0:1", "check:0:0", "restart", "check:0:0", "new", "remove:1:0", "check:1:0"})
 
+	// round 4: several stored sessions with DIFFERENT expiries across a
+	// restart through the real loadSessions; each cookie replayed before and
+	// after its own expiry (the expiry of token 0 passes, the others stay), and
+	// after a second restart
+	c12SessHistory(t, out, vfNewRand(10), users, "prelude/three-sessions-own-expiry-restart", 19, []string{
+		"new", "new", "new", "setexp@100:0", "setexp@200000:1", "setexp@5000:2", "restart", "http:0", "http:1", "http:2",
+		"setexp@-10:0", "http:0", "http:1", "http:2", "restart", "http:0", "http:1", "http:2", "setexp@-1:2"})
 	// many sessions, every other one expired while the process is down: the
 	// reload deletes inside a bbolt ForEach
 	many := []string{}
